@@ -50,7 +50,9 @@ def run(report, tier, seed):
         pylabs = [codeclab.Lab(sc, ybin, i, g, ndjson=True, want_cpp=False).prepare() for i, g in pygens]
         d = codeclab.Lab(sc, ybin, 1000, modelgen.Gen(seed * 100103 + 1000, json_safe=True), pkg=modelgen.directed_package(),
                          ndjson=True, want_cpp=False).prepare()
-        for lab in labs + pylabs + [d]:
+        # fields that can be null in every way a type can say so (aliases, alias chains, generic arguments, named unions), in C++ and Python
+        nl = codeclab.Lab(sc, ybin, 1001, modelgen.Gen(seed * 100103 + 1001, json_safe=True, cpp_json_safe=True), pkg=modelgen.nullable_package(), ndjson=True).prepare()
+        for lab in labs + pylabs + [d, nl]:
             if not lab.ok:
                 report.violation(f"{lab.stage}:model", {"seed": seed, "model_index": lab.idx, "error": lab.err, "files": _files(lab)}, "")
                 continue
